@@ -18,4 +18,6 @@ if not os.path.exists(lock):
     shutil.copy("/repo/Cargo.lock", lock)
 sh(["cargo", "build", "--offline", "--release"], os.path.join(ROOT, "harness"))
 sh(["cargo", "build", "--offline", "--profile", "relchk"], os.path.join(ROOT, "harness"))
+sh(["cargo", "build", "--offline", "--release", "--no-default-features", "--target-dir", os.path.join(ROOT, "harness", "target-nostd")],
+   os.path.join(ROOT, "harness"))
 print("setup ok")
